@@ -382,6 +382,7 @@ func Run(r *evid.Run) {
 	if done < int64(len(cases)) {
 		r.Cap(fmt.Sprintf("deadline: %d of %d scenarios", done, len(cases)))
 	}
+	runTxnShapes(r)
 	runConformance(r)
 	r.Sample(map[string]any{"scenario": []map[string]any{{"client": "A", "node": 1, "ops": []string{"put", "range(linearizable)"}}, {"client": "B", "node": 0, "ops": []string{"txn(empty-taken-branch)"}}}})
 	r.Assume("simulated Raft host = dragonboat's documented contract (append = commit; proposal answered from the proposing replica after it applied the index; SyncRead waits for the commit index captured at invocation; StaleRead reads the local replica as is); conformance: every client program of length <= 2 (thorough 3) is replayed single-node/no-lag through the simulated host and through a real dragonboat NodeHost running the same state machine and every response and revision step is compared (traces_validated_against_impl counts these traces)")
@@ -488,6 +489,97 @@ func doOp(at *table.ActiveTable, ctx context.Context, op int, val string, before
 // runConformance replays single-node, no-lag traces of the simulated Raft host against a real
 // dragonboat NodeHost running the same state machine and compares every response (revisions as
 // differences: the real log starts with Raft's own entries).
+// runTxnShapes: the revision clause swept over transaction SHAPES, sequentially, through the real
+// table.ActiveTable and FSM: predicates {none, one that holds, one that does not} x success branch x
+// failure branch from 7 operation lists (empty, read, put, put+prev_kv, delete, put+read, range
+// delete). Every transaction that is not read-only is acknowledged with the revision following the
+// previous write's, the write after it with the next one, the succeeded flag is the predicate's
+// truth and there is one response per operation of the executed branch.
+func runTxnShapes(r *evid.Run) {
+	preds := []struct {
+		name string
+		cmp  []*regattapb.Compare
+		hold bool
+	}{{"none", nil, true}, {"holds", Cmps(Exists("a", nil)), true}, {"fails", Cmps(Exists("zz", nil)), false}}
+	branches := []struct {
+		name string
+		ops  []*regattapb.RequestOp
+	}{
+		{"empty", nil},
+		{"read", Ops(OpGet("a", nil, 0, false, false))},
+		{"put", Ops(OpPut("b", "1", false))},
+		{"put+prev", Ops(OpPut("b", "2", true))},
+		{"delete", Ops(OpDel("a", nil, false, false))},
+		{"put,read", Ops(OpPut("c", "3", false), OpGet("a", wild, 0, false, false))},
+		{"delete-range", Ops(OpDel("a", wild, true, true))},
+	}
+	n := 0
+	for _, pr := range preds {
+		for _, su := range branches {
+			for _, fa := range branches {
+				n++
+				shape := fmt.Sprintf("if[%s] then[%s] else[%s]", pr.name, su.name, fa.name)
+				cs := map[string]any{"kind": "txn-shape", "shape": shape}
+				env := fsmx.NewEnv()
+				inst, _, err := env.Open("t", 10001, fsm.RecoveryTypeSnapshot)
+				if err != nil {
+					r.Inconcl.Add(1)
+					continue
+				}
+				c := simraft.NewCluster(10001, inst)
+				at := table.Table{Name: "t", ClusterID: 10001}.AsActive(simraft.NewHost(c.Nodes[0], nil))
+				ctx := context.Background()
+				p1, err := at.Put(ctx, &regattapb.PutRequest{Table: Table, Key: B("a"), Value: B("0")})
+				if err != nil {
+					r.Inconcl.Add(1)
+					inst.Close()
+					continue
+				}
+				req := &regattapb.TxnRequest{Table: Table, Compare: pr.cmp, Success: su.ops, Failure: fa.ops}
+				readonly := req.IsReadonly()
+				tr, terr := at.Txn(ctx, req)
+				p2, err2 := at.Put(ctx, &regattapb.PutRequest{Table: Table, Key: B("a"), Value: B("9")})
+				inst.Close()
+				r.Evaluations.Add(1)
+				if terr != nil || err2 != nil {
+					r.Violate("txn-shape/error", fmt.Sprintf("%s: txn %v, put %v", shape, terr, err2), cs)
+					continue
+				}
+				executed := su.ops
+				if !pr.hold {
+					executed = fa.ops
+				}
+				r.Outcome(fmt.Sprintf("%s rev=%d succeeded=%v responses=%d", shape, tr.Header.GetRevision()-p1.Header.GetRevision(), tr.Succeeded, len(tr.Responses)), true)
+				if tr.Succeeded != pr.hold {
+					r.Violate("txn-shape/succeeded-flag", fmt.Sprintf("%s: succeeded=%v", shape, tr.Succeeded), cs)
+				}
+				if len(tr.Responses) != len(executed) {
+					r.Violate("txn-shape/response-count", fmt.Sprintf("%s: %d responses for %d operations", shape, len(tr.Responses), len(executed)), cs)
+				}
+				base := p1.Header.GetRevision()
+				if readonly {
+					if got := p2.Header.GetRevision(); got != base+1 {
+						r.Violate("txn-shape/read-only-transaction-consumed-a-revision", fmt.Sprintf("%s: put %d, put after the transaction %d", shape, base, got), cs)
+					}
+					continue
+				}
+				if got := tr.Header.GetRevision(); got != base+1 {
+					sig := "txn-shape/revision-not-the-log-position"
+					if got == 0 {
+						sig = "txn-shape/revision-zero"
+					}
+					r.Violate(sig, fmt.Sprintf("%s: previous write %d, transaction acknowledged with revision %d", shape, base, got), cs)
+				}
+				if got := p2.Header.GetRevision(); got != base+2 {
+					r.Violate("txn-shape/revision-after-the-transaction", fmt.Sprintf("%s: previous write %d, write after the transaction %d", shape, base, got), cs)
+				}
+			}
+		}
+	}
+	r.Extra("transaction_shapes", n)
+	r.Rule("transaction shapes (sequential): predicates {none, holds, fails} x success x failure branch from 7 operation lists (empty, read, put, put+prev_kv, delete, put+read, range delete) through the real ActiveTable and FSM between two puts: a transaction that is not read-only is acknowledged with the revision following the previous write's, the next write with the one after; succeeded = the predicate's truth; one response per operation of the executed branch")
+}
+
 func runConformance(r *evid.Run) {
 	eng, err := engx.Start(engx.Opts{})
 	if err != nil {
